@@ -31,6 +31,13 @@ package idna
 //                     hyphen, upper case, non-ASCII L, R, AL, AN), each non-ASCII label as U-label or A-label: the
 //                     statement's idempotence / ToASCII(ToUnicode(x)) clauses, Punycode, Lookup, Display, Registration.
 //
+//   VerifC50_refdecode Punycode validity against an INDEPENDENT reference (RFC 3492 6.2 written out in the harness, 64-bit):
+//                     payload = 1..3 (thorough 4) symbolic bytes [a-z0-9-] in ANY arrangement (delimiter anywhere, leading,
+//                     doubled, alone, absent): decode accepts exactly the payloads the reference accepts and returns the
+//                     reference's code points; payloads the reference rejects are rejected by every profile. (The other
+//                     harnesses classify "invalid payload" with decode itself, so a decode that accepts too much went
+//                     unnoticed there.)
+//
 // Known finding C50-ascii-alabel: see known_findings.txt and repro/C50. C50-surrogate-payload (decode returned U+FFFD
 // for a payload that encodes a surrogate) was found by VerifC50_surrogate and is fixed in /repo (3484f90).
 //
@@ -42,6 +49,8 @@ package idna
 //   idna.go process: dropping the `unicode16 &&` guard (candidate repair)            check passes, no KNOWN-FINDING
 //   punycode.go madd `int64(b) * int64(c)` -> `int64(b * c)` (seed C50-A)            caught (bigdelta, quick)
 //   idna.go process `isBidi = isBidi || ...` -> `isBidi = ...` (seed C50-B)          caught (names, quick)
+//   punycode.go decode: `pos == 1` rejection only when the '-' is also the last byte (seed C50-E)   caught (refdecode and
+//            decenc leading-delimiter, quick)
 //   idna.go labelIter.next slice mode stops at the first empty label (seed C50-D)     caught (names with empty labels and
 //            alabelctx, quick)
 
@@ -54,6 +63,7 @@ func init() {
 	vfRegister("VerifC50_surrogate", VerifC50_surrogate)
 	vfRegister("VerifC50_bigdelta", VerifC50_bigdelta)
 	vfRegister("VerifC50_names", VerifC50_names)
+	vfRegister("VerifC50_refdecode", VerifC50_refdecode)
 }
 
 func c50ldh(label string, n int) string {
@@ -96,6 +106,11 @@ func VerifC50_decenc() {
 	s := c50basic(nb)
 	if nb > 0 {
 		s += "-"
+	} else if nd > 0 && vfChoice("leading-delimiter", 2) == 1 {
+		// a delimiter with NO basic code point before it: the encoder never emits it (RFC 3492 6.3 writes the delimiter
+		// only if b > 0), so accepting it could not round-trip
+		s += "-"
+		vfReach("leading-delimiter")
 	}
 	s += c50digits(nd)
 	if len(s) == 0 {
@@ -537,5 +552,118 @@ func VerifC50_names() {
 		vfReach("alabel-name-accepted")
 	}
 	vfObserveStr("ascii", a1)
+	vfReach("end")
+}
+
+// c50refPuny: reference Punycode decoder, RFC 3492 6.2 transcribed (64-bit arithmetic; independent of decode):
+// b = number of code points before the LAST delimiter (0 if there is none); the first b code points are copied; the
+// main loop starts after the delimiter if b > 0 and at the BEGINNING of the input otherwise (so a delimiter at index 0
+// with nothing before it is read as a digit and fails); every integer must be complete and made of digits [a-z0-9];
+// n must stay a Unicode scalar value. Returns the code points as integers.
+func c50refPuny(p string) (cps []int, ok bool) {
+	b := 0
+	for j := 0; j < len(p); j++ {
+		if p[j] == '-' {
+			b = j
+		}
+	}
+	for j := 0; j < b; j++ {
+		cps = append(cps, int(p[j]))
+	}
+	pos := 0
+	if b > 0 {
+		pos = b + 1
+	}
+	n, i, bias := 128, 0, 72
+	for pos < len(p) {
+		oldI, w := i, 1
+		for k := 36; ; k += 36 {
+			if pos == len(p) {
+				return nil, false
+			}
+			c := p[pos]
+			pos++
+			d := 0
+			switch {
+			case 'a' <= c && c <= 'z':
+				d = int(c - 'a')
+			case '0' <= c && c <= '9':
+				d = int(c-'0') + 26
+			default:
+				return nil, false
+			}
+			i += d * w
+			t := k - bias
+			if k <= bias {
+				t = 1
+			} else if k >= bias+26 {
+				t = 26
+			}
+			if d < t {
+				break
+			}
+			w *= 36 - t
+		}
+		x := len(cps) + 1
+		delta := i - oldI
+		if oldI == 0 {
+			delta /= 700
+		} else {
+			delta /= 2
+		}
+		delta += delta / x
+		k := 0
+		for delta > ((36-1)*26)/2 {
+			delta /= 36 - 1
+			k += 36
+		}
+		bias = k + (36*delta)/(delta+38)
+		n += i / x
+		i %= x
+		if n > 0x10ffff || (0xd800 <= n && n <= 0xdfff) {
+			return nil, false
+		}
+		ip := int(vfConcretize(uint64(i)))
+		cps = append(cps, 0)
+		copy(cps[ip+1:], cps[ip:])
+		cps[ip] = n
+		i = ip + 1
+	}
+	return cps, true
+}
+
+// VerifC50_refdecode (B): which payloads are valid Punycode, decided by the reference above and not by decode itself.
+// Payload = 1..3 (thorough 4) symbolic bytes from [a-z0-9-], no restriction on where the hyphens stand.
+func VerifC50_refdecode() {
+	p := c50ldh("payload", vfLen("len", 1, 3+vfTier()))
+	cps, refOK := c50refPuny(p)
+	u, err := decode(p)
+	vfAssert((err == nil) == refOK, "decode accepts exactly the payloads that RFC 3492 6.2 accepts")
+	vfObserveBool("accepted", err == nil)
+	if !refOK {
+		prof := c50profile(vfChoice("profile", 5))
+		_, errA := prof.ToASCII("xn--" + p)
+		_, errU := prof.ToUnicode("xn--" + p)
+		vfAssert(errA != nil && errU != nil, "ToASCII and ToUnicode reject an A-label whose payload is invalid per RFC 3492")
+		if p[0] == '-' {
+			vfReach("ref-rejected-leading-delimiter")
+		}
+		vfReach("ref-rejected")
+		vfReach("end")
+		return
+	}
+	exp := make([]rune, len(cps))
+	for k := range cps {
+		exp[k] = rune(cps[k])
+	}
+	vfAssert(u == string(exp), "decode returns the code points of the reference decoder")
+	if p[len(p)-1] == '-' {
+		vfReach("ref-accepted-basic-only")
+	} else if p[0] == '-' {
+		vfReach("ref-accepted-hyphen-basic") // "--a": the basic part is "-"
+	} else {
+		vfReach("ref-accepted-extended")
+	}
+	vfObserveStr("decoded", u)
 	vfReach("end")
 }
